@@ -3,6 +3,7 @@
 usage: try_neutral.py <patch.diff> PID [PID…]   -> prints one JSON line per property; nonzero exits are false alarms
 (exit 1) or checks that depend on internals the refactoring touched (exit 2)."""
 import json, os, subprocess, sys, tempfile
+ROOT = os.path.dirname(os.path.dirname(os.path.abspath(__file__)))
 patch = os.path.abspath(sys.argv[1])
 pids = sys.argv[2:]
 def sh(cmd):
@@ -18,9 +19,9 @@ try:
         print(json.dumps({'patch': patch, 'error': 'does not apply: ' + out[-300:]}))
         sys.exit(3)
     for pid in pids:
-        ev = '/verif/evidence/%s.json' % pid
+        ev = ROOT + '/evidence/%s.json' % pid
         saved = open(ev).read() if os.path.exists(ev) else None
-        rc, out = sh('cd /verif && PCBV_REPO=%s nice ./check %s --tier quick' % (wt, pid))
+        rc, out = sh('cd %s && PCBV_REPO=%s nice ./check %s --tier quick' % (ROOT, wt, pid))
         if saved is not None:
             open(ev, 'w').write(saved)
         r = {'patch': os.path.basename(os.path.dirname(patch)) + '/' + os.path.basename(patch), 'property': pid, 'exit': rc,
@@ -30,5 +31,5 @@ try:
         print(json.dumps(r), flush=True)
 finally:
     sh('git -C /repo worktree remove --force %s' % wt)
-    sh('cd /verif && PYTHONPATH=/repo:/verif /venv/bin/python gen/gen_tables.py')
+    sh('cd %s && PYTHONPATH=/repo:%s /venv/bin/python gen/gen_tables.py' % (ROOT, ROOT))
 sys.exit(1 if any(r['exit'] != 0 for r in results) else 0)
